@@ -270,7 +270,8 @@ def init (cfg : Cfg) : St :=
     write_<name>(value):  write_<idx>(min(vdict, key=lambda i: abs(vdict[i] - value))); return getattr(mobj, name)
     __get__:              valuedict[parameters[idx_name].value]
     callback on <idx>:    announceUpdate(name, getattr(modobj, name))
-    callback on <name>:   (repaired code) if value != valuedict[<idx>]: setattr(modobj, <idx>, min(vdict, key=…))
+    callback on <name>:   (repaired code) if value != valuedict[<idx>]: closest = min(vdict, key=…)
+                          if closest == <idx>: announceUpdate(name, valuedict[closest]) else: setattr(modobj, <idx>, closest)
 -/
 
 structure FCfg where
@@ -279,6 +280,8 @@ structure FCfg where
   hi : Val
   hasR : Bool                    -- the programmer wrote read_<idx>
   hasW : Bool                    -- the programmer wrote write_<idx>
+  omitUnch : Bool := false       -- `omit_unchanged_within`: 0 (false) or longer than the whole history (true); frappy's
+                                 -- default of 0.1 s lies in between: which of the two applies to an update depends on timing
   deriving Repr
 
 inductive FEv
@@ -289,6 +292,8 @@ inductive FEv
 structure FSt where
   idx : Int
   value : Val                    -- the cache entry of the float parameter (what `read` replies)
+  idxErr : Bool := false         -- `readerror` of the index parameter is set
+  valErr : Bool := false         -- `readerror` of the float parameter is set
   evs : List FEv := []
   ok : Bool := true
   exc : Option ExcKind := none
@@ -307,11 +312,21 @@ def closest : List (Int × Val) → Val → Option Int
 
 def femit (s : FSt) (e : FEv) : FSt := { s with evs := s.evs ++ [e] }
 
+/-- `announceUpdate` returns before storing, callbacks and update message: "no change within short time -> omit"
+(modulebase.py:563-575: the value is the one in the cache, no error is pending, the window is still open) -/
+def omitted (cfg : FCfg) (same err : Bool) : Bool := cfg.omitUnch && same && !err
+
+/-- `announceUpdate(name, v)` with `v = valuedict[index]` (from `trigger_setter`, from the write wrapper of the float
+parameter, from `trigger_index`): store, the callback `trigger_index` finds nothing to do, update -/
+def announceVal (cfg : FCfg) (v : Val) (s : FSt) : FSt :=
+  if omitted cfg (s.value == v) s.valErr then s else femit { s with value := v, valErr := false } (.value v)
+
 /-- `announceUpdate(idx, j)` for a valid index: store, callback `trigger_setter`, update -/
 def announceIdx (cfg : FCfg) (j : Int) (s : FSt) : FSt :=
+  if omitted cfg (s.idx == j) s.idxErr then s else
   match cfg.vdict.lookup j with
-  | none => femit { s with idx := j } (.idx j)       -- `valuedict[j]` raises inside the callback (swallowed)
-  | some v => femit (femit { s with idx := j, value := v } (.value v)) (.idx j)
+  | none => femit { s with idx := j, idxErr := false } (.idx j)       -- `valuedict[j]` raises inside the callback (swallowed)
+  | some v => femit (announceVal cfg v { s with idx := j, idxErr := false }) (.idx j)
 
 def validIdx (cfg : FCfg) (j : Int) : Bool := (cfg.vdict.lookup j).isSome
 
@@ -335,18 +350,28 @@ def writeFloat (cfg : FCfg) (x : Val) (w : WRes Int) (s : FSt) : FSt :=
     if !s1.ok then s1 else
     match cfg.vdict.lookup s1.idx with
     | none => { s1 with ok := false }
-    | some v => femit { s1 with value := v } (.value v)
+    | some v => announceVal cfg v s1
 
-/-- `self.<name> = x` from the driver (`Parameter.__set__` → `announceUpdate`): the cache entry takes any float
-(converted, not range-checked); the callback `trigger_index` compares it with the value of the current index and, when
-it differs, assigns the index of the closest label (whose callback updates the float parameter); the update message of
-the outer `announceUpdate` then carries the value the cache holds at that time -/
-def assignFloat (cfg : FCfg) (x : Val) (s : FSt) : FSt :=
-  let s1 := { s with value := x }
-  let s2 := if cfg.vdict.lookup s1.idx == some x then s1 else
+/-- the callback `trigger_index` on the float parameter (repaired code): a value that is not the value of the current
+index selects the closest label; when that is another index, assigning it updates the float parameter through
+`trigger_setter`; when it is the current index (whose unchanged update might be omitted) the float parameter is corrected
+directly -/
+def triggerIndex (cfg : FCfg) (x : Val) (s : FSt) : FSt :=
+  match cfg.vdict.lookup s.idx with
+  | none => s                                         -- `vdict[idx]` raises (swallowed)
+  | some cur =>
+    if cur == x then s else
     match closest cfg.vdict x with
-    | none => s1
-    | some i => announceIdx cfg i s1
+    | none => s
+    | some i =>
+      if i = s.idx then announceVal cfg cur s else announceIdx cfg i s
+
+/-- `self.<name> = x` from the driver (`Parameter.__set__` → `announceUpdate`): unless omitted, the cache entry takes any
+float (converted, not range-checked), the callback `trigger_index` runs, and the update message of the outer
+`announceUpdate` carries the value the cache holds at that time -/
+def assignFloat (cfg : FCfg) (x : Val) (s : FSt) : FSt :=
+  if omitted cfg (s.value == x) s.valErr then s else
+  let s2 := triggerIndex cfg x { s with value := x, valErr := false }
   femit s2 (.value s2.value)
 
 inductive FOp
@@ -358,22 +383,27 @@ inductive FOp
   | driverAssignFloat (x : Val)
   deriving Repr, Inhabited
 
+/-- an error is announced for the index parameter (`announceUpdate(idx, err=e)`): `readerror` is set, the callback
+`trigger_setter` does not take the extra argument (`TypeError`, swallowed) -/
+def idxError (s : FSt) (e : Option ExcKind) : FSt := { s with ok := false, exc := e, idxErr := true }
+
 def fstep (cfg : FCfg) (s : FSt) : FOp → FSt
   | .writeFloat x w => writeFloat cfg x w s
   | .writeIdx i w => writeIdx cfg i w s
   | .readIdx r =>
     if cfg.hasR then
       match r with
-      | .fail k => { s with ok := false, exc := some k }
-      | .ok j => if validIdx cfg j then { announceIdx cfg j s with ok := true } else { s with ok := false }
+      | .fail k => idxError s (some k)
+      | .ok j => if validIdx cfg j then { announceIdx cfg j s with ok := true } else idxError s none
     else { s with ok := true }
   | .readFloat => { s with ok := true }
-  | .driverAssignIdx j => if validIdx cfg j then { announceIdx cfg j s with ok := true } else { s with ok := false }
+  | .driverAssignIdx j => if validIdx cfg j then { announceIdx cfg j s with ok := true } else idxError s none
   | .driverAssignFloat x => { assignFloat cfg x s with ok := true }
 
 /-- initial state: the index parameter starts with the default of its enum, the float parameter with the
-value of that index (`FloatEnumParam.finish`, repaired code) -/
-def finit (cfg : FCfg) (idx0 : Int) : FSt := { idx := idx0, value := (cfg.vdict.lookup idx0).getD cfg.lo }
+value of that index (`FloatEnumParam.finish`, repaired code); both may carry the `not initialized` error -/
+def finit (cfg : FCfg) (idx0 : Int) (idxErr : Bool := false) (valErr : Bool := false) : FSt :=
+  { idx := idx0, value := (cfg.vdict.lookup idx0).getD cfg.lo, idxErr := idxErr, valErr := valErr }
 
 def fstep1 (cfg : FCfg) (s : FSt) (op : FOp) : FSt := fstep cfg { s with evs := [], exc := none } op
 def frun (cfg : FCfg) (s : FSt) (ops : List FOp) : List FSt := Frappy.Scan.scan (fstep1 cfg) s ops
